@@ -483,6 +483,27 @@ def write_cfg(path: str, *, init='Init', next_='Next', spec=None, constants: dic
     return path
 
 
+def run_apalache(module_path: str, args: list, timeout: int = 900):
+    """apalache-mc check <args> <module>.  Returns 'ok' (NoError), 'violation' (an invariant violation was found) or
+    raises MachineryError (tool failure, timeout)."""
+    wd = workdir('apa')
+    try:
+        cmd = ['apalache-mc', 'check'] + list(args) + ['--out-dir=' + os.path.join(wd, 'out'), '--run-dir=' + os.path.join(wd, 'run'), module_path]
+        try:
+            p = subprocess.run(cmd, cwd=wd, stdout=subprocess.PIPE, stderr=subprocess.STDOUT, timeout=timeout, env=dict(os.environ, JVM_ARGS='-Xmx6g'))
+        except subprocess.TimeoutExpired:
+            raise MachineryError(f'apalache timed out on {os.path.basename(module_path)} {args}')
+        out = p.stdout.decode('utf-8', 'replace')
+        log(f'apalache {args} rc={p.returncode}')
+        if 'The outcome is: NoError' in out and p.returncode == 0:
+            return 'ok'
+        if 'The outcome is: Error' in out and p.returncode == 12:
+            return 'violation'
+        raise MachineryError(f'apalache failed on {os.path.basename(module_path)} {args}: {out[-600:]}')
+    finally:
+        cleanup(wd)
+
+
 # --------------------------------------------------------------------------- simulate-file parser
 
 _RE_STATE_HDR = re.compile(r'^\\\* <(\w+) .*?>\s*$|^STATE_(\d+) ==\s*$', re.M)
